@@ -135,6 +135,15 @@ def run(chk):
                 except Exception:
                     pass
         chk.count('optional_arguments_exercised_before_the_default_calls')
+    # calls that fail half-way (an element that cannot be compared with a number) leave nothing behind either
+    for bad in ([5, None], [8, 8, 'BKN'], [1, 3, object()], [2, [1]], [7, None, 8]):
+        try:
+            icao.significant_cloud(list(bad))
+        except Exception:
+            pass
+        chk.count('failed_calls_before_the_default_calls')
+        probe = [(seq, _impl(seq)[0]) for seq in ((1,), (8, 8, 8), (1, 3, 5), (0, 2, 4, 6))]
+        _compare(chk, probe)
     if extra:
         after = [(seq, _impl(seq)[0]) for L in range(0, 5) for seq in itertools.product(range(9), repeat=L)]
         _compare(chk, after)
